@@ -234,6 +234,7 @@ func randPolicy(r *rand.Rand) cmapw.Policy {
 	}
 	p.SectionOrder = []string{"", "", "reverse", "shuffle"}[r.Intn(4)]
 	p.Comments = r.Intn(3) == 0
+	p.Damaged = r.Intn(5) == 0
 	return p
 }
 
